@@ -252,11 +252,13 @@ impl<H: Host> ZXController<H> {
             && clocks < specs.clocks_screen_row - CLOCKS_PER_COL
             && ((clocks & 0x04) == 0)
         {
+            // ULA fetches from the screen bank it displays, wherever that bank is paged for CPU
+            let screen = self.memory.ram_page_data(self.screen_bank);
             if clocks % 2 == 0 {
-                return self.memory.read(bitmap_line_addr(row) + col as u16);
+                return screen[bitmap_line_addr(row) as usize % PAGE_SIZE + col];
             } else {
                 let byte = (row / 8) * 32 + col;
-                return self.memory.read(0x5800 + byte as u16);
+                return screen[0x1800 + byte];
             };
         }
         0xFF
